@@ -6,6 +6,8 @@ import (
 	"net"
 	"sync"
 	"time"
+
+	"github.com/influxdata/influxdb/pkg/verifhook"
 )
 
 var (
@@ -156,6 +158,10 @@ func (c *boundedPool) put(conn net.Conn) error {
 	if c.conns == nil {
 		// pool is closed, close passed connection
 		return conn.Close()
+	}
+
+	if verifhook.Enabled {
+		verifhook.Yield("pool.put.sending")
 	}
 
 	// put the resource back into the pool. If the pool is full, this will
